@@ -163,6 +163,10 @@ func Resolve(holderDoc, ref string) (Pos, error) {
 	if (t.Scheme == "http" && strings.HasSuffix(t.Host, ":80")) || (t.Scheme == "https" && strings.HasSuffix(t.Host, ":443")) {
 		t.Host = t.Host[:strings.LastIndex(t.Host, ":")]
 	}
+	if t.Scheme == "file" {
+		// the query of a file location is irrelevant (normalizeBase documents it; C11 states it for root locations)
+		t.RawQuery, t.ForceQuery = "", false
+	}
 	return Pos{Doc: t.String(), Ptr: frag}, nil
 }
 
